@@ -57,7 +57,9 @@ def gen_case(seed, tier):
         elif r < 0.62:
             op = {'op': 'incr', 'k': 'ctr%d' % rng.randrange(3)}
         elif r < 0.82:
-            op = {'op': rng.choice(('get', 'get', 'getitem', 'contains')), 'k': k}
+            op = {'op': rng.choice(('get', 'get', 'getitem', 'contains', 'read', 'peekitem')), 'k': k}
+            if op['op'] == 'peekitem':
+                op = {'op': 'peekitem', 'last': rng.random() < 0.5}
         elif r < 0.86:
             op = {'op': 'touch', 'k': k, 'expire': rng.choice((1, 100))}
         elif r < 0.89:
